@@ -504,7 +504,7 @@ theorem C18_both_directions_children (E : Ext) (dyn : Val → Except Exc Val) (c
 through the sub-converters the fast pass uses -/
 theorem C18_both_directions_structural (E : Ext) (dyn : Val → Except Exc Val) :
     (∀ kind vc xs, intoC E dyn (.seq kind vc) (.list xs) =
-      (exMapM (intoC E dyn vc) xs).map fun ys => if kind == "tuple" then .tuple ys else .list ys) ∧
+      (exMapM (anyOr E dyn vc (intoC E dyn vc)) xs).map fun ys => if kind == "tuple" then .tuple ys else .list ys) ∧
     (∀ kind vc xs, tryC E (.seq kind vc) (.list xs) =
       swallow (Facts.catches .seqTry) ((mapMO (tryC E vc) xs).bind fun ys =>
         match seqCtor kind ys with
